@@ -227,7 +227,7 @@ class MessagePackRpc(MessagePackDocument):
 
 
         except ValueError as e:
-            raise MessagePackDecodeError(''.join(e.args))
+            raise MessagePackDecodeError(str(e))
 
         try:
             len(ctx.in_document)
